@@ -121,6 +121,9 @@ var (
 	curViews  *views.Views
 	viewEnts  [][]ent
 	viewTypes [][]uint16
+	dEnts     []ent
+	dStub     *stub
+	dPipe     *middleware.Pipeline
 )
 
 var typeByName = map[string]uint16{"a": dns.TypeA, "aaaa": dns.TypeAAAA, "txt": dns.TypeTXT}
@@ -285,6 +288,57 @@ func exec(op string) vlib.Res {
 			or = fmt.Sprintf("FAIL sig=views/serve/fallthrough-mismatch got=%s next=%d", got, st.calls)
 		}
 		return vlib.Res{Impl: "view=" + got, Oracle: or, Tags: "nt"}
+	case "dchain new":
+		// dchain new <ents> <clientratelimit>: the REAL default chain from
+		// recovery up to (not including) hostsfile, then the stub as the
+		// answer surface, built the way sdns.go does (Register + Setup).
+		dEnts = parseEnts(f[2])
+		middleware.Reset()
+		defaults.RegisterUpTo("hostsfile")
+		dStub = &stub{}
+		st := dStub
+		middleware.Register("stub", func(*config.Config) middleware.Handler { return st })
+		cfg := &config.Config{AccessList: texts(dEnts), ClientRateLimit: vlib.Atoi(f[3]),
+			CookieSecret: "6c6f6f6b61686172646c6f6f6b6168617264"}
+		middleware.Setup(cfg)
+		dPipe = middleware.GlobalPipeline()
+		if len(dEnts) == 0 {
+			dEnts = []ent{parseEnt("4:00000000/0"), parseEnt("6:00000000000000000000000000000000/0")}
+		}
+		return vlib.Res{Impl: "ok"}
+	case "dchain serve", "dchain rlserve":
+		// dchain serve <addr> <proto> <ednsver|-> <opcode> <cookie hex|->
+		a := parseAddr(f[2])
+		req := new(dns.Msg)
+		req.SetQuestion("example.org.", dns.TypeA)
+		req.Opcode = vlib.Atoi(f[5])
+		if f[4] != "-" {
+			req.SetEdns0(1232, false)
+			o := req.IsEdns0()
+			o.SetVersion(uint8(vlib.Atoi(f[4])))
+			if f[6] != "-" {
+				o.Option = append(o.Option, &dns.EDNS0_COOKIE{Code: dns.EDNS0COOKIE, Cookie: f[6]})
+			}
+		}
+		w := writerFor(a, false, f[3])
+		before := dStub.calls
+		ch := dPipe.NewChain()
+		ch.Reset(w, req)
+		ch.Next(context.Background())
+		dPipe.PutChain(ch)
+		allowed := naive(dEnts, a)
+		reached := dStub.calls != before
+		or := "ok"
+		if !allowed && w.Written() {
+			or = fmt.Sprintf("FAIL sig=dchain/denied-source-got-reply rcode=%d edns=%s opcode=%s cookie=%v", w.Rcode(), f[4], f[5], f[6] != "-")
+		} else if !allowed && reached {
+			or = "FAIL sig=dchain/denied-source-reached-handler"
+		}
+		impl := "reply=" + vlib.B(w.Written())
+		if f[1] == "rlserve" {
+			impl = fmt.Sprintf("reply=%s rcode=%d", vlib.B(w.Written()), w.Rcode())
+		}
+		return vlib.Res{Impl: impl, Oracle: or, Tags: "nt"}
 	case "sub query":
 		// Internal sub-queries bypass every client-only policy: a
 		// pipeline whose access list denies everything (and whose rate
@@ -494,6 +548,36 @@ func gen(r *vlib.R, n int, tier string, emit func(string)) {
 			q := 3 + r.Intn(6)
 			for i := 0; i < q; i++ {
 				emit(fmt.Sprintf("acl serve %s %s %s", genAddr(r, pool), vlib.B(r.Chance(1, 6)), vlib.Pick(r, []string{"udp", "tcp", "doh"})))
+			}
+			n -= q + 1
+		case k == 8 && r.Chance(1, 2):
+			// the real default chain ahead of the answer surface: a denied
+			// source must get nothing whatever it sends (EDNS version,
+			// opcode, cookies), with and without the rate limiter
+			l, pool := genList(r, 5)
+			rl := 0
+			verb := "serve"
+			if r.Chance(1, 3) {
+				rl, verb = 1+r.Intn(3), "rlserve"
+			}
+			emit(fmt.Sprintf("dchain new %s %d", l, rl))
+			q := 4 + r.Intn(8)
+			prevCookie := ""
+			for i := 0; i < q; i++ {
+				ver := vlib.Pick(r, []string{"-", "0", "0", "1", "7", "255"})
+				opc := vlib.Pick(r, []string{"0", "0", "0", "1", "2", "4", "5", "9"})
+				ck := "-"
+				if ver != "-" && r.Chance(1, 2) {
+					switch {
+					case prevCookie != "" && r.Chance(1, 2):
+						// same client cookie, forged server part
+						ck = prevCookie[:16] + vlib.Hex(r.Bytes(8+r.Intn(9)))
+					default:
+						ck = vlib.Hex(r.Bytes(8))
+					}
+					prevCookie = ck
+				}
+				emit(fmt.Sprintf("dchain %s %s %s %s %s %s", verb, genAddr(r, pool), vlib.Pick(r, []string{"udp", "tcp", "doh"}), ver, opc, ck))
 			}
 			n -= q + 1
 		default:
